@@ -42,9 +42,10 @@ func (c *BetaController) ListBeta(filter []string, rank Rank) ([]BetaBody, error
 // @Path(id, { name: "thingId" })
 // @FormField(label, { name: "label_text", validate: "required" })
 // @FormField(weight)
+// @FormField(level, { validate: "oneof=low" })
 // @Response(202) Accepted
 // @ErrorResponse(409) Conflict
 // @ErrorResponse(422) Unprocessable
-func (c *BetaController) PatchBeta(id int, label string, weight *int) error {
+func (c *BetaController) PatchBeta(id int, label string, weight *int, level *Rank) error {
 	return nil
 }
